@@ -1,0 +1,98 @@
+// Verification hook (cargo feature `verif`): a one-column builder with explicit encoding options and a scan
+// entry with explicit start row, batch sizes and skips. Nothing here is compiled without the feature.
+
+//! One-column harness for the column encodings (used by the external checker of the round-trip property).
+
+use bytes::Bytes;
+use moka::future::Cache;
+use risinglight_proto::rowset::block_checksum::ChecksumType;
+
+use super::{
+    BlockCacheKey, Column, ColumnBuilderImpl, ColumnBuilderOptions, ColumnIndex, ColumnIteratorImpl,
+    ColumnReadableFile, EncodeType, IndexBuilder,
+};
+use crate::array::ArrayImpl;
+use crate::catalog::{ColumnCatalog, ColumnDesc};
+use crate::storage::StorageResult;
+use crate::types::DataType;
+
+/// An encoded in-memory column.
+pub struct VerifColumn {
+    column: Column,
+    info: ColumnCatalog,
+    /// size of the encoded data / number of blocks
+    pub data_len: usize,
+    pub blocks: usize,
+}
+
+/// Encode `arrays` (appended one after the other) as one column.
+/// `encode` is one of "plain", "rle", "dict".
+pub fn build_column(
+    ty: DataType,
+    nullable: bool,
+    encode: &str,
+    target_block_size: usize,
+    crc: bool,
+    arrays: &[ArrayImpl],
+) -> StorageResult<VerifColumn> {
+    let checksum_type = if crc { ChecksumType::Crc32 } else { ChecksumType::None };
+    let options = ColumnBuilderOptions {
+        target_block_size,
+        checksum_type,
+        encode_type: match encode {
+            "rle" => EncodeType::RunLength,
+            "dict" => EncodeType::Dictionary,
+            _ => EncodeType::Plain,
+        },
+        record_first_key: false,
+    };
+    let mut builder = ColumnBuilderImpl::new_from_datatype(&ty, nullable, options);
+    for a in arrays {
+        builder.append(a);
+    }
+    let (index, data) = builder.finish();
+    let blocks = index.len();
+    let mut ib = IndexBuilder::new(checksum_type, index.len());
+    for i in index {
+        ib.append(i);
+    }
+    let index = ColumnIndex::from_bytes(&ib.finish())?;
+    let data_len = data.len();
+    let column = Column::new(
+        index,
+        ColumnReadableFile::InMemory(Bytes::from(data)),
+        Cache::new(256),
+        BlockCacheKey::default(),
+    );
+    let info = ColumnCatalog::new(0, ColumnDesc::new("c", ty, nullable));
+    Ok(VerifColumn { column, info, data_len, blocks })
+}
+
+/// A scan over a [`VerifColumn`].
+pub struct ColumnScan(ColumnIteratorImpl);
+
+impl VerifColumn {
+    pub async fn scan(&self, start_row: u32) -> StorageResult<ColumnScan> {
+        Ok(ColumnScan(
+            ColumnIteratorImpl::new(self.column.clone(), &self.info, start_row).await?,
+        ))
+    }
+}
+
+impl ColumnScan {
+    pub async fn next_batch(&mut self, expected: Option<usize>) -> StorageResult<Option<(u32, ArrayImpl)>> {
+        self.0.next_batch(expected).await
+    }
+
+    pub fn skip(&mut self, cnt: usize) {
+        self.0.skip(cnt)
+    }
+
+    pub fn fetch_hint(&self) -> (usize, bool) {
+        self.0.fetch_hint()
+    }
+
+    pub fn current_row_id(&self) -> u32 {
+        self.0.fetch_current_row_id()
+    }
+}
